@@ -284,6 +284,51 @@ func (ip *Interp) rangeIter(t types.Type, x Value) Value {
 		if n > 1 {
 			if ip.inInit {
 				// concrete init: insertion order (init results must not depend on it; see DESIGN)
+			} else if ip.MapOrderPolicies < 0 {
+				// single-deviation mode: every range uses insertion order except at
+				// most one per path, which is reversed or rotated (2N+1 paths for N
+				// multi-entry ranges: each range's order sensitivity is explored on its own)
+				if !ip.deviated {
+					switch ip.choose(3) {
+					case 1:
+						ip.deviated = true
+						ip.mapOrders++
+						ord := make([]*mapEntry, n)
+						for i := range ord {
+							ord[i] = live[n-1-i]
+						}
+						live = ord
+					case 2:
+						ip.deviated = true
+						ip.mapOrders++
+						ord := make([]*mapEntry, n)
+						for i := range ord {
+							ord[i] = live[(i+1)%n]
+						}
+						live = ord
+					}
+				}
+			} else if ip.MapOrderPolicies > 0 {
+				// one global order policy per path (chosen at the first multi-entry
+				// range): 0 insertion order, 1 reverse, 2 rotated by one, 3 reverse rotated ...
+				if ip.orderPolicy < 0 {
+					ip.orderPolicy = ip.choose(ip.MapOrderPolicies)
+					ip.mapOrders++
+				}
+				ord := make([]*mapEntry, n)
+				for i := range ord {
+					switch ip.orderPolicy {
+					case 0:
+						ord[i] = live[i]
+					case 1:
+						ord[i] = live[n-1-i]
+					case 2:
+						ord[i] = live[(i+1)%n]
+					default:
+						ord[i] = live[(2*n-2-i)%n]
+					}
+				}
+				live = ord
 			} else {
 				if n > ip.MaxMapPerm {
 					ip.endPath("unwind", fmt.Sprintf("range over map with %d entries exceeds the permutation bound %d", n, ip.MaxMapPerm))
